@@ -114,7 +114,7 @@ ERR_TYPES = ["xy", "indexed", "hist"]
 ALL_TYPES = ["xy", "indexed", "hist", "unbinned"]
 BACKENDS = ["iminuit", "scipy"]
 VARIANTS = {
-    "size-off": ["simple", "matrix-cov", "matrix-cov-nonsquare", "matrix-cor-errval", "matrix-cor-matrix", "matrix-cor-both"],
+    "size-off": ["simple", "simple-relative-length-one", "matrix-cov", "matrix-cov-nonsquare", "matrix-cor-errval", "matrix-cor-matrix", "matrix-cor-both"],
     "negative-entry": ["simple-vector", "simple-scalar", "cor-err_val"],
     "corr-out-of-range": ["-0.1", "1.1", "inf", "-inf", "nan"],
     "cor-nonunit-diagonal": ["source", "constraint"],
@@ -563,6 +563,12 @@ def gen_bad_source(rng, ttype, n, name, operator, variant, for_fit, yscale, base
             valid = gvs(rng, ttype, n, name, for_fit, yscale, force={"kind": "simple", "shape": str(rng.choice(["vec", "constvec", "veczero"]))})
             bad = copy.deepcopy(valid)
             bad[1]["err"] = _resize(valid[1]["err"], m)
+        elif variant == "simple-relative-length-one":
+            # a relative uncertainty as an array of length one: numpy would broadcast it against the reference values
+            valid = gvs(rng, ttype, n, name, for_fit, yscale, force={"kind": "simple", "shape": "constvec", "relative": True, "reference": "data"})
+            bad = copy.deepcopy(valid)
+            bad[1]["err"] = [float(valid[1]["err"][0])]
+            info["delta"] = 1 - n
         elif variant in ("matrix-cov", "matrix-cov-nonsquare"):
             valid = gvs(rng, ttype, n, name, for_fit, yscale, force={"kind": "matrix", "matrix_type": "cov"})
             bad = copy.deepcopy(valid)
